@@ -28,6 +28,9 @@ pub fn check(tier: Tier) -> Check {
     }
     // a Maximum Packet Size as well: a locally refused oversized publish must not take a slot
     parts.push(Part::new("C10/quota", json!({"depth": tier.pick(5, 7), "r": 2, "m": 40}), 0, tier.pick(25, 400)));
+    // identifier flavour: the counters start next to a boundary of their encodings (DESIGN 4)
+    parts.push(Part::new("C10/quota", json!({"depth": tier.pick(5, 7), "r": 2, "ids": [65534, 1]}), 0, tier.pick(25, 400)));
+    parts.push(Part::new("C10/quota", json!({"depth": tier.pick(5, 7), "r": 3, "ids": [254, 1]}), 0, tier.pick(25, 400)));
     parts.push(Part::new("C10/fill", json!({"r": 65535}), 0, 120));
     parts.push(Part::new("C10/fill", json!({"r": 0}), 0, 120));
     parts.push(Part::new("C10/fill", json!({"r": 300}), 0, 120));
